@@ -30,9 +30,13 @@ theorem center_crop_height_upper_eq (dn2 sn2 dn1 sn1 : Int) :
     center_crop_height_upper dn2 sn2 dn1 sn1 = centerCropLower dn1 sn1 + sn1 := by
   simp only [center_crop_height_upper, centerCropLower, Int.fdiv_eq_ediv_of_nonneg _ (by decide : (0:Int) ≤ 2)] <;> bridge_arith
 
+/-- the guard of `center_crop`, as a boolean expression over the four comparisons `0 < s₂`, `s₂ ≤ n₂`, `0 < s₁`, `s₁ ≤ n₁`:
+however it is written (`not A or not B`, `not (A and B)`, …) it rejects exactly when one axis is not `0 < s ≤ n`
+(decided by cases on the four atoms; `omega` closes re-expressed comparisons such as `s ≥ 1`) -/
 theorem center_crop_rejects_eq (dn2 sn2 dn1 sn1 : Int) :
     center_crop_rejects dn2 sn2 dn1 sn1 = (!(centerCropOk dn2 sn2) || !(centerCropOk dn1 sn1)) := by
-  simp only [center_crop_rejects, centerCropOk]
+  by_cases h1 : 0 < sn2 <;> by_cases h2 : sn2 ≤ dn2 <;> by_cases h3 : 0 < sn1 <;> by_cases h4 : sn1 ≤ dn1 <;>
+    simp [center_crop_rejects, centerCropOk, h1, h2, h3, h4] <;> omega
 
 theorem complex_center_crop_start_eq (n s : Int) : complex_center_crop_start n s = cccStart n s := by
   simp only [complex_center_crop_start, cccStart, Int.fdiv_eq_ediv_of_nonneg _ (by decide : (0:Int) ≤ 2)] <;> bridge_arith
